@@ -93,13 +93,21 @@ def make_geometry(gname, wform, shape, scale=0):
     vol = float(np.prod(vs))
     meta = dict(space_dim=dim, num_voxels=list(shape), voxel_size=list(vs))
 
+    # caller-owned weight containers: created ONCE and handed to every construction of this
+    # geometry (a user builds several geometries from the same porosity map); the reference
+    # keeps private copies
+    shared = {}
+
     def form(kind, k):
         if kind == "scalar":
             return 0.5 if k == 0 else 4.0, (0.5 if k == 0 else 4.0) * np.ones(shape)
         arr = wpattern(shape, k)
-        if kind == "ndarray":
-            return arr.copy(), arr
-        return darsia.Image(arr.copy(), space_dim=dim, dimensions=[vs[a] * shape[a] for a in range(dim)], scalar=True), arr
+        if (kind, k) not in shared:
+            if kind == "ndarray":
+                shared[(kind, k)] = arr.copy()
+            else:
+                shared[(kind, k)] = darsia.Image(arr.copy(), space_dim=dim, dimensions=[vs[a] * shape[a] for a in range(dim)], scalar=True)
+        return shared[(kind, k)], arr
 
     if gname == "Geometry":
         return (lambda: darsia.Geometry(**meta)), vol * np.ones(shape)
